@@ -96,18 +96,18 @@ Proof.
   assert (Hbound : bound (Clear [] :: Einf) [] = n) by (rewrite bound_hmax; reflexivity).
   unfold model, initializer.
   set (d0 := tdepth T + idepth (IList l)).
-  destruct (levels_ok d0) as [HI [HD [HIs HDs]]].
-  cbn [level]. destruct (level d0) as [i2c dc] eqn:Hlev. cbn [fst snd] in HI, HD, HIs, HDs. cbn [fst].
+  destruct (levels_ok d0) as [HI [HD [HIs [HDs HDr]]]].
+  cbn [level]. destruct (level d0) as [i2c dc] eqn:Hlev. cbn [fst snd] in HI, HD, HIs, HDs, HDr. cbn [fst].
   change (new_initializer T true) with (NArray true e []).
   rewrite (init2_array_braced i2c dc true e [] l INil Hie).
   unfold array_initializer1, unflex, count_array_init_elements.
   rewrite (new_initializer_flag e Hwfe).
   assert (Hshe : shaped e (new_initializer e false)) by (apply (shaped_new (S (tdepth e))); [lia|exact Hwfe]).
-  rewrite (count_ok i2c dc d0 HI HD HDs (S (ilength l)) e (new_initializer e false) 0 0 l Hshe Hwfe ltac:(lia)
+  rewrite (count_ok i2c dc d0 HI HD HDs HDr (S (ilength l)) e (new_initializer e false) 0 0 l Hshe Hwfe ltac:(lia)
              ltac:(unfold d0; cbn [tdepth T idepth]; lia) Hokl).
   cbn [Nat.max]. change (hmax (spec_items (TArray None e) (Some [0]) l)) with n.
   assert (Hcur : cur1 n 0 = Some [0]) by (unfold cur1; rewrite Hnb; reflexivity).
-  destruct (array_loop1_ok i2c dc d0 HI HD HDs (S (ilength l)) e n (repeat (new_initializer e false) n) 0 l) as [E [cs' [Hr [Hw2 Hs]]]].
+  destruct (array_loop1_ok i2c dc d0 HI HD HDs HDr (S (ilength l)) e n (repeat (new_initializer e false) n) 0 l) as [E [cs' [Hr [Hw2 Hs]]]].
   { apply repeat_length. }
   { apply Forall_forall. intros c Hc. apply repeat_spec in Hc. subst c. exact Hshe. }
   { exact HwfWn. }
@@ -127,12 +127,13 @@ Proof.
 Qed.
 
 (* a character array of unknown bound and a string literal, bare or in braces (p14, p22) *)
-Lemma string_events_bounded : forall q s i n, i + length s <= n ->
+Lemma string_events_bounded : forall q s i n, i + length s = n ->
   string_events q i (Some n) s = string_events q i None s.
 Proof.
-  intros q s. induction s as [|c s IH]; intros i n H; [reflexivity|].
-  cbn [string_events in_bound length] in *. assert (Hb : i <? n = true) by (apply Nat.ltb_lt; lia). rewrite Hb.
-  f_equal. apply IH. lia.
+  intros q s. induction s as [|c s IH]; intros i n H.
+  - cbn [string_events zero_fill length] in *. replace (n - i) with 0 by lia. reflexivity.
+  - cbn [string_events in_bound length] in *. assert (Hb : i <? n = true) by (apply Nat.ltb_lt; lia). rewrite Hb.
+    f_equal. apply IH. lia.
 Qed.
 
 Lemma hmax_string : forall s i, s <> [] -> hmax (string_events [] i None s) = i + length s.
@@ -168,11 +169,9 @@ Proof.
   { rewrite <- Hrep. apply shaped_replay. apply shaped_array. rewrite Hlen. repeat split. exact Hall. }
   assert (Hlen' : length cs' = n).
   { apply shaped_array in Hsh'. destruct Hsh' as [_ [Heq _]]. injection Heq as ->. reflexivity. }
-  assert (Hev : spec_events T v = (if braced then Clear [] :: ev0 else ev0)) by (destruct braced; reflexivity).
+  assert (Hev : spec_events T v = ev0) by (destruct braced; reflexivity).
   assert (Hbound : bound (spec_events T v) [] = n).
-  { rewrite Hev, bound_hmax. destruct braced.
-    - cbn [hmax fold_right event_path head1]. fold (hmax ev0). unfold ev0. rewrite (hmax_string s 0 Hs). reflexivity.
-    - unfold ev0. rewrite (hmax_string s 0 Hs). reflexivity. }
+  { rewrite Hev, bound_hmax. unfold ev0. rewrite (hmax_string s 0 Hs). reflexivity. }
   assert (Hinit : initializer T v = Some (NArray false e cs')).
   { unfold initializer. cbn [level]. destruct (level (tdepth T + idepth v)) as [i2c dc].
     cbn [fst]. change (new_initializer T true) with (NArray true e []).
@@ -180,7 +179,7 @@ Proof.
   unfold model. rewrite Hinit. unfold spec. cbn [complete T]. rewrite Hbound. fold Wn.
   cbn [type_of T]. rewrite Hlen'. fold Wn. f_equal. f_equal.
   assert (HR : NArray false e cs' = R Wn (spec_events T v)).
-  { unfold R. change (new_initializer Wn false) with (NArray false e cs). rewrite Hev. destruct braced; rewrite <- Hrep; reflexivity. }
+  { unfold R. change (new_initializer Wn false) with (NArray false e cs). rewrite Hev, <- Hrep. reflexivity. }
   rewrite HR. apply (leaves_of_replay Wn (spec_events T v) HwfWn). apply clean_bound. exact Hclean.
 Qed.
 
@@ -192,9 +191,8 @@ Proof.
   destruct T as [k|[n|] e|ms|ms]; try (apply model_is_spec_complete; assumption).
   cbn [wf_top] in Hwf. destruct v as [x|s|l]; try discriminate.
   - (* char s[] = "..." *)
+    cbn [top_ok is_char_array] in Htop. destruct e as [[|[|k]]| | |]; try discriminate.
     cbn [ok_init sub str_ok] in Hok. destruct s as [|c s]; [discriminate|].
-    apply andb_prop in Hok. destruct Hok as [Hca _]. cbn [is_char_array] in Hca.
-    destruct e as [[|[|k]]| | |]; try discriminate.
     apply (model_is_spec_unknown_string (c :: s) false); [discriminate|exact Hclean].
   - destruct (ok_braced_cases (TArray None e) l I Hok) as [[s [-> [Hca [Hsne _]]]]|[Hokl [Hlne Hnstr]]].
     + cbn [is_char_array] in Hca. destruct e as [[|[|k]]| | |]; try discriminate.
@@ -218,18 +216,18 @@ Proof.
   exists ex_override_ty, ex_override_init. repeat split; try (vm_compute; reflexivity). vm_compute. discriminate.
 Qed.
 
-(* int x[2][6] = { [1][2 ... 4] = 7, 8 };   gcc (whose extension ranges are): 8 goes to x[1][5], after the range;
-   parse.c (designation: array_initializer2(rest, tok2, init, begin + 1)): x[1][3], inside the range.
-   array_initializer1 handles the same situation at the top level of a list with `i = end`. *)
+(* int x[2][6] = { [1][2 ... 4] = 7, 8 };   gcc (whose extension ranges are): 8 goes to x[1][5], after the range.
+   parse.c did put it into x[1][3] (designation: begin + 1); repaired in /repo 43bd8ea (end + 1), and the model with it.
+   A designator list ENDING in a range is now inside `valid`. *)
 Definition ex_range_ty : ty := TArray (Some 2) (TArray (Some 6) (TScalar 0)).
 Definition ex_range_init : init :=
   IList (ICons [DIndex 1; DRange 2 4] (IExpr 7) (ICons [] (IExpr 8) INil)).
 
-Lemma nested_range_refuted :
-  exists T v, wf_top T = true /\ clean T (spec_events T v) = true /\ model T v <> Some (spec T v).
-Proof.
-  exists ex_range_ty, ex_range_init. repeat split; try (vm_compute; reflexivity). vm_compute. discriminate.
-Qed.
+Lemma nested_range_example :
+  valid ex_range_ty ex_range_init = true /\
+  model ex_range_ty ex_range_init = Some (spec ex_range_ty ex_range_init) /\
+  nth_error (snd (spec ex_range_ty ex_range_init)) 11 = Some ([1; 5], Some (VExpr 8)).
+Proof. vm_compute. repeat split. Qed.
 
 (* ---- non-vacuity ---- *)
 
@@ -253,16 +251,31 @@ Lemma valid_nonvacuous :
 Proof. vm_compute. repeat split. Qed.
 
 (* struct { char s[2][3]; } x = { "ab" };   6.7.9p20 + p14 (and gcc): "ab" initializes x.s[0], reached by brace
-   elision; parse.c's initializer2 hands any array a string literal is met at to string_initializer, which stops
-   the compiler ("internal error") when the elements are not characters.  The model rejects (None). *)
+   elision through the array s.  parse.c stopped with an internal error; repaired in /repo 50fe612 (initializer2 hands
+   a string literal to string_initializer only for an array of integers), and the model with it: the input is now
+   inside `valid` and model = spec. *)
 Definition ex_strarr_ty : ty := TStruct [TArray (Some 2) (TArray (Some 3) (TScalar 1))].
 Definition ex_strarr_init : init := IList (ICons [] (IStr [97; 98; 0]) INil).
 
-Lemma string_elision_refuted :
-  exists T v, wf_top T = true /\ clean T (spec_events T v) = true /\ model T v = None /\
-              snd (spec T v) = [([0; 0; 0], Some (VChar 97)); ([0; 0; 1], Some (VChar 98)); ([0; 0; 2], Some (VChar 0));
-                                ([0; 1; 0], None); ([0; 1; 1], None); ([0; 1; 2], None)].
-Proof. exists ex_strarr_ty, ex_strarr_init. repeat split; vm_compute; reflexivity. Qed.
+Lemma string_elision_example :
+  valid ex_strarr_ty ex_strarr_init = true /\
+  model ex_strarr_ty ex_strarr_init
+  = Some (ex_strarr_ty, [([0; 0; 0], Some (VChar 97)); ([0; 0; 1], Some (VChar 98)); ([0; 0; 2], Some (VChar 0));
+                         ([0; 1; 0], None); ([0; 1; 1], None); ([0; 1; 2], None)]).
+Proof. vm_compute. split; reflexivity. Qed.
+
+(* struct R { char name[8]; } r = { "default", .name = "ab" };   the second literal initializes the whole array again:
+   the bytes behind "ab" are zero (p19, p21; /repo 2e393ab) - inside `valid` *)
+Definition ex_stroverride_ty : ty := TStruct [TArray (Some 8) (TScalar 1)].
+Definition ex_stroverride_init : init :=
+  IList (ICons [] (IStr [100; 101; 102; 97; 117; 108; 116; 0]) (ICons [DField 0] (IStr [97; 98; 0]) INil)).
+
+Lemma string_override_example :
+  valid ex_stroverride_ty ex_stroverride_init = true /\
+  model ex_stroverride_ty ex_stroverride_init
+  = Some (ex_stroverride_ty, [([0; 0], Some (VChar 97)); ([0; 1], Some (VChar 98)); ([0; 2], Some (VChar 0));
+                              ([0; 3], None); ([0; 4], None); ([0; 5], None); ([0; 6], None); ([0; 7], None)]).
+Proof. vm_compute. split; reflexivity. Qed.
 
 (* struct { char name[4]; int n; } t[] = { "ab", 1, { "cdef", 2 }, [3].name = { "g" } };  char u[] = "hi"; *)
 Definition ex_str_ty : ty := TArray None (TStruct [TArray (Some 4) (TScalar 1); TScalar 0]).
